@@ -118,6 +118,10 @@ def build(r, name, repr_key, n, mask, fieldless, generics=None, style=None):
         vs.append(v)
     spec = EnumSpec(name=name, variants=vs, derives=["FromRepr"], repr=repr_key, generics=generics)
     spec.attr_order_seed = r.choice([0, 1, 2, 3, 4, 5, 6])
+    gen.add_noise(r, spec, enum_level=False, skip=("std_default",))
+    for v in spec.variants:
+        if v.kind == "tuple" and len(v.fields) == 1 and v.fields[0].ty in ("u8", "i32", "bool", "String") and r.random() < 0.3:
+            v.default_with = "noise_default_with"     # EnumString's attribute: from_repr must still build Default::default()
     if r.random() < 0.3:
         spec.serialize_all = r.choice(["snake_case", "UPPERCASE"])   # an unrelated #[strum(..)] attribute next to #[repr]
     if fieldless and generics is None and r.random() < 0.25:
@@ -127,7 +131,7 @@ def build(r, name, repr_key, n, mask, fieldless, generics=None, style=None):
     if generics:
         # carrier variant must not disturb numbering assumptions: append at the end
         used_t = {f.ty for v in spec.variants for f in v.fields}
-        need = {"T": ["T"], "N": ["CG"], "TN": ["T", "CG"], "TU": ["T", "U"], "Tw": ["T"]}[generics]
+        need = {"T": ["T"], "N": ["CG"], "TN": ["T", "CG"], "TU": ["T", "U"], "Tw": ["T"], "TwU": ["T", "U"], "Tdef": ["T"]}[generics]
         missing = [t for t in need if t not in used_t]
         if missing:
             if prev is not None and (prev + 1 > hi or prev + 1 in used):
@@ -208,7 +212,7 @@ def check(run):
         n = r.choice([1, 2, 3, 4, 5, 6, 8, 12])
         mask = [r.random() < 0.25 for _ in range(n)]
         fieldless = r.random() < 0.55
-        g = None if fieldless else r.choice([None, None, "T", "N", "TN", "TU", "Tw"])
+        g = None if fieldless else r.choice([None, None, "T", "N", "TN", "TU", "Tw", "TwU", "Tdef"])
         s = build(r, "R%d" % k, rk, n, mask, fieldless, generics=g)
         if s is not None:
             specs.append(s)
